@@ -9,6 +9,9 @@
   * the decoder works on the remaining input (a suffix of the buffer) instead of an index and is
     fuelled by the input length (every value consumes at least one byte; `Lemmas` proves the
     fuel never runs out).
+  * encoder AND decoder carry the container `depth` (root = 0, items / map keys / map values at
+    depth + 1) and refuse a container at depth ≥ `maxNesting` (= MAX_DECODE_NESTING_DEPTH, extracted
+    together with the presence of the check in all four container arms) with `nestingLimit`.
 -/
 import EchoVerif.Model.Basic
 import EchoVerif.Generated.CborHead
@@ -19,7 +22,7 @@ open EchoVerif EchoVerif.Generated.CborHead
 /-- `CanonError` classes (payload strings dropped); `fuel` is the model's own, proved unreachable. -/
 inductive Err where
   | incomplete | trailing | tag | indefinite | nonCanonicalInt | nonCanonicalFloat
-  | floatShouldBeInt | mapKeyOrder | mapKeyDuplicate | decode | encode | fuel
+  | floatShouldBeInt | mapKeyOrder | mapKeyDuplicate | decode | nestingLimit | encode | fuel
   deriving DecidableEq, Repr
 
 def Err.name : Err → String
@@ -27,7 +30,8 @@ def Err.name : Err → String
   | .indefinite => "Indefinite" | .nonCanonicalInt => "NonCanonicalInt"
   | .nonCanonicalFloat => "NonCanonicalFloat" | .floatShouldBeInt => "FloatShouldBeInt"
   | .mapKeyOrder => "MapKeyOrder" | .mapKeyDuplicate => "MapKeyDuplicate"
-  | .decode => "Decode" | .encode => "Encode" | .fuel => "MODEL-FUEL"
+  | .decode => "Decode" | .nestingLimit => "NestingLimitExceeded" | .encode => "Encode"
+  | .fuel => "MODEL-FUEL"
 
 inductive Val where
   | null
@@ -190,51 +194,56 @@ def encBody : List EncEntry → Except Err Bytes
       | .ok tl => .ok (kb ++ vb ++ tl)
 
 mutual
-  /-- `enc_value` -/
-  def enc : Val → Except Err Bytes
-    | .null => .ok [UInt8.ofNat encNull]
-    | .bool b => .ok [UInt8.ofNat (if b then encTrue else encFalse)]
-    | .int n => if n < -(2 ^ 63 : Int) then .error .encode else .ok (encInt n)
-    | .float b => .ok (encFloat b)
-    | .text s => .ok (head 3 s.length ++ s)
-    | .bytes b => .ok (head 2 b.length ++ b)
-    | .array xs =>
-      match encList xs with
-      | .error e => .error e
-      | .ok body => .ok (head 4 xs.length ++ body)
-    | .map es =>
-      match encEntries es with
-      | .error e => .error e
-      | .ok ents =>
-        let sorted := sortEntries ents
-        if hasAdjDup sorted then .error .mapKeyDuplicate
-        else match encBody sorted with
-          | .error e => .error e
-          | .ok body => .ok (head 5 sorted.length ++ body)
-    | .tag _ _ => .error .tag
-  def encList : List Val → Except Err Bytes
-    | [] => .ok []
-    | x :: xs =>
-      match enc x with
+  /-- `enc_value(v, out, depth)`: a container at `depth ≥ maxNesting` is refused before anything
+      is written; items, map keys and map values are encoded at `depth + 1`. -/
+  def enc : Nat → Val → Except Err Bytes
+    | _, .null => .ok [UInt8.ofNat encNull]
+    | _, .bool b => .ok [UInt8.ofNat (if b then encTrue else encFalse)]
+    | _, .int n => if n < -(2 ^ 63 : Int) then .error .encode else .ok (encInt n)
+    | _, .float b => .ok (encFloat b)
+    | _, .text s => .ok (head 3 s.length ++ s)
+    | _, .bytes b => .ok (head 2 b.length ++ b)
+    | d, .array xs =>
+      if maxNesting ≤ d then .error .nestingLimit
+      else match encList (d + 1) xs with
+        | .error e => .error e
+        | .ok body => .ok (head 4 xs.length ++ body)
+    | d, .map es =>
+      if maxNesting ≤ d then .error .nestingLimit
+      else match encEntries (d + 1) es with
+        | .error e => .error e
+        | .ok ents =>
+          let sorted := sortEntries ents
+          if hasAdjDup sorted then .error .mapKeyDuplicate
+          else match encBody sorted with
+            | .error e => .error e
+            | .ok body => .ok (head 5 sorted.length ++ body)
+    | _, .tag _ _ => .error .tag
+  /-- the items of an array, all at depth `d` -/
+  def encList : Nat → List Val → Except Err Bytes
+    | _, [] => .ok []
+    | d, x :: xs =>
+      match enc d x with
       | .error e => .error e
       | .ok a =>
-        match encList xs with
+        match encList d xs with
         | .error e => .error e
         | .ok b => .ok (a ++ b)
-  /-- first loop of the map arm: keys are encoded (and fail) in the given order -/
-  def encEntries : List (Val × Val) → Except Err (List EncEntry)
-    | [] => .ok []
-    | kv :: rest =>
-      match enc kv.1 with
+  /-- first loop of the map arm: keys are encoded (and fail) in the given order; keys and values
+      are at depth `d` -/
+  def encEntries : Nat → List (Val × Val) → Except Err (List EncEntry)
+    | _, [] => .ok []
+    | d, kv :: rest =>
+      match enc d kv.1 with
       | .error e => .error e
       | .ok kb =>
-        match encEntries rest with
+        match encEntries d rest with
         | .error e => .error e
-        | .ok r => .ok ((kb, enc kv.2) :: r)
+        | .ok r => .ok ((kb, enc d kv.2) :: r)
 end
 
-/-- `encode_value` -/
-def encode (v : Val) : Except Err Bytes := enc v
+/-- `encode_value`: the root is at depth 0 -/
+def encode (v : Val) : Except Err Bytes := enc 0 v
 
 /-! ### UTF-8 (`str::from_utf8`): Unicode Table 3-7 well-formed byte sequences -/
 
@@ -346,11 +355,13 @@ def entriesWith (d : Bytes → Except Err (Val × Bytes)) :
           | .error e => .error e
           | .ok (es, r3) => .ok ((k, v) :: es, r3)
 
-/-- `dec_value` on the remaining input; returns the value and what is left -/
-def dec : Nat → Bytes → Except Err (Val × Bytes)
-  | 0, _ => .error .fuel
-  | _ + 1, [] => .error .incomplete
-  | fuel + 1, b0 :: rest =>
+/-- `dec_value(bytes, idx, depth, _)` on the remaining input; returns the value and what is left.
+    First argument: fuel; second: `depth`.  A container head is read first (`read_len`), then the
+    nesting check, then the items at `depth + 1`. -/
+def dec : Nat → Nat → Bytes → Except Err (Val × Bytes)
+  | 0, _, _ => .error .fuel
+  | _ + 1, _, [] => .error .incomplete
+  | fuel + 1, d, b0 :: rest =>
     let major := b0.toNat / 32
     let info := b0.toNat % 32
     if major = 0 then
@@ -379,16 +390,18 @@ def dec : Nat → Bytes → Except Err (Val × Bytes)
       match readLen info rest with
       | .error e => .error e
       | .ok (n, r) =>
-        match itemsWith (dec fuel) n r with
-        | .error e => .error e
-        | .ok (xs, r') => .ok (.array xs, r')
+        if maxNesting ≤ d then .error .nestingLimit
+        else match itemsWith (dec fuel (d + 1)) n r with
+          | .error e => .error e
+          | .ok (xs, r') => .ok (.array xs, r')
     else if major = 5 then
       match readLen info rest with
       | .error e => .error e
       | .ok (n, r) =>
-        match entriesWith (dec fuel) n none r with
-        | .error e => .error e
-        | .ok (es, r') => .ok (.map es, r')
+        if maxNesting ≤ d then .error .nestingLimit
+        else match entriesWith (dec fuel (d + 1)) n none r with
+          | .error e => .error e
+          | .ok (es, r') => .ok (.map es, r')
     else if major = decTagMajor then .error .tag
     else
       if info = decFalse then .ok (.bool false, rest)
@@ -398,9 +411,9 @@ def dec : Nat → Bytes → Except Err (Val × Bytes)
       else if info = decSimpleIndefinite then .error .indefinite
       else .error .decode
 
-/-- `decode_value` -/
+/-- `decode_value`: the root is at depth 0 -/
 def decode (bs : Bytes) : Except Err Val :=
-  match dec (bs.length + 1) bs with
+  match dec (bs.length + 1) 0 bs with
   | .error e => .error e
   | .ok (v, []) => .ok v
   | .ok (_, _ :: _) => .error .trailing
@@ -417,8 +430,10 @@ def normFloat (b : Nat) : Val :=
     | some i => .int i
     | none => .float b
 
+/-- the encoding of a key (depth-independent whenever the enclosing map encodes at all:
+    `enc_depth_irrelevant` in Lemmas/Codec/CborDepth.lean) -/
 def keyBytes (k : Val) : Bytes :=
-  match enc k with
+  match enc 0 k with
   | .ok b => b
   | .error _ => []
 
@@ -457,5 +472,26 @@ mutual
     | kv :: rest => WF kv.1 ∧ WF kv.2 ∧ WFEntries rest
 end
 
+/-! ### container nesting of a value -/
+
+mutual
+  /-- number of nested containers: 0 for a scalar, 1 + the deepest item / key / value otherwise -/
+  def depth : Val → Nat
+    | .array xs => 1 + depthList xs
+    | .map es => 1 + depthEntries es
+    | .tag _ v => depth v
+    | _ => 0
+  def depthList : List Val → Nat
+    | [] => 0
+    | x :: xs => max (depth x) (depthList xs)
+  def depthEntries : List (Val × Val) → Nat
+    | [] => 0
+    | kv :: rest => max (max (depth kv.1) (depth kv.2)) (depthEntries rest)
+end
+
+/-- `n` arrays of one element around `v` -/
+def nestArr : Nat → Val → Val
+  | 0, v => v
+  | n + 1, v => .array [nestArr n v]
 
 end EchoVerif.Cbor
